@@ -102,3 +102,28 @@ def gamma_over_beta_matrix(G: Arr, betas, a) -> Arr:
             num = dag.addn([dag.mul(G[k, i, j], dag.power(a, k + 1)) for k in range(n)])
             out.append(dag.div(num, den))
     return Arr(out, (dim, dim))
+
+
+def install_expm_model(pe, log=None):
+    """ekore.anomalous_dimensions.exp_matrix uses np.linalg.eig: model it as an uninterpreted matrix function
+    EXPM_ij(entries of M) with EXPM(0) = 1; the argument matrices are recorded in `log`."""
+    from .pe import Top
+
+    def model(pe_, args, kwargs):
+        m = args[0]
+        dim = m.shape[0]
+        flat = m.flat()
+        if log is not None:
+            log.append(m.copy())
+        if all((not isinstance(x, dag.Node) or x.op == "const") and dag.as_const(x) == 0 for x in flat):
+            return (eye(dim), Top("eigenvalues of the zero matrix"), Top("projectors of the zero matrix"))
+        out = Arr([dag.fn(f"EXPM{dim}_{i}{j}", *flat) for i in range(dim) for j in range(dim)], (dim, dim))
+        return (out, Top("np.linalg.eig eigenvalues"), Top("np.linalg.eig projectors"))
+
+    pe.overrides["ekore.anomalous_dimensions.exp_matrix"] = model
+
+
+def expm_ref(m: Arr) -> Arr:
+    dim = m.shape[0]
+    flat = [dag.tonode(x) for x in m.flat()]
+    return Arr([dag.fn(f"EXPM{dim}_{i}{j}", *flat) for i in range(dim) for j in range(dim)], (dim, dim))
